@@ -4,6 +4,8 @@ use std::{collections::VecDeque, marker::PhantomData, ops::Rem, time::Duration};
 mod alloc;
 mod boxed;
 mod linked_list;
+#[cfg(petrichorit_des_verif)]
+pub mod verif;
 
 pub(crate) use alloc::*;
 use linked_list::DualLinkedList;
